@@ -74,6 +74,16 @@ RankClause(cfg, s, e) ==
     [] e.d_cov > tol                                -> "rank_cov"
     [] OTHER -> "ok"
 
+\* "composed with the initial state as documented": a default-constructed integrator called with
+\* init_state = (p0, R0, v0) gives the same states as an integrator constructed with that state
+InitStateClause(cfg, s, e) ==
+  LET tol == I!TolUlps(e.nfold) IN
+  CASE ~e.finite        -> "initstate_nonfinite"
+    [] e.d_rot > tol    -> "initstate_rot"
+    [] e.d_vel > tol    -> "initstate_vel"
+    [] e.d_pos > tol    -> "initstate_pos"
+    [] OTHER -> "ok"
+
 \* ------------------------------------------------------------------ kind "exact"
 XFrames(cfg, e) == [i \in 1..Len(e.dt) |-> [dt |-> e.dt[i], acc |-> e.acc[i],
                                             rk |-> IF cfg.known THEN e.rk[i] ELSE <<>>]]
@@ -97,6 +107,7 @@ XClause(cfg, s, e) ==
 Clause(cfg, s, e) ==
   CASE e.act = "call"  -> CallClause(cfg, s, e)
     [] e.act = "rank"  -> RankClause(cfg, s, e)
+    [] e.act = "initstate" -> InitStateClause(cfg, s, e)
     [] e.act = "xcall" -> XClause(cfg, s, e)
     [] e.act = "done"  -> IF s.k = cfg.F THEN "ok" ELSE "stream_not_consumed"
     [] e.act = "raise" -> "raised"
